@@ -993,3 +993,65 @@ package regexp2
 //@   modifies objs(replacerDataCache)
 //@   ensures[ok]  err == nil ==> d != nil && syntax.ReplFor(d, replacement)
 //@   ensures[err] err != nil ==> d == nil
+
+// ---------------------------------------------------------------------------------------------
+// C03 / C10 / C15: the FindMode-specific finders (runner.go), specified at the level of the text: which start
+// positions each one may skip. The dispatcher findFirstCharOptimized stays trusted: it is assumed to call them
+// with the facts the analyzers publish (C04) and to turn "no occurrence" into "no successful attempt".
+// ---------------------------------------------------------------------------------------------
+//@ spec func RunnerText(r *Runner) bool = r != nil && r.code != nil && 0 <= r.Runtextpos && r.Runtextpos <= len(r.Runtext) && r.Runtextend == len(r.Runtext)
+// latest start position at which the minimum required length still fits (latestPossibleStart)
+//@ spec func Latest(r *Runner) int = ite(r.code.FindOptimizations == nil || r.code.FindOptimizations.MinRequiredLength <= 0, r.Runtextend, r.Runtextend - r.code.FindOptimizations.MinRequiredLength)
+
+//@ func findTrailingFixedLengthEnd(r *Runner, fixedLength int) (b bool)
+//@   props C03 C10
+//@   requires RunnerText(r)
+//@   modifies r.Runtextpos
+//@   ensures[hit]  b ==> r.Runtextpos == r.Runtextend - fixedLength && old(r.Runtextpos) <= r.Runtextpos && 0 <= r.Runtextpos
+//@   ensures[miss] !b ==> r.Runtextpos == r.Runtextend && (r.Runtextend - fixedLength < old(r.Runtextpos) || r.Runtextend - fixedLength < 0)
+
+//@ func isASCIIRunes(in []rune) (b bool)
+//@   props C03 C20
+//@   ensures b == AllASCII(in)
+//@   loop 0:
+//@     invariant -1 <= rangeindex && rangeindex < len(in)
+//@     invariant forall k int :: 0 <= k && k <= rangeindex ==> in[k] <= 127
+//@     decreases len(in) - rangeindex
+
+// how the leading-string finder compares: ordinal, ASCII fold, or Unicode simple lower-casing
+//@ spec func PrefAt(text []rune, p int, prefix []rune, ic bool, ascii bool) bool = ite(!ic, helpers.OccursAt(text, p, prefix), ite(ascii, helpers.AFOccursAt(text, p, prefix), helpers.CIOccursAt(text, p, prefix)))
+//@ spec func AllASCII(in []rune) bool = forall k int :: 0 <= k && k < len(in) ==> in[k] <= 127
+
+//@ func findLeadingStringLeftToRight(r *Runner, prefix []rune, ignoreCase bool) (b bool)
+//@   props C03 C10 C20
+//@   requires RunnerText(r)
+//@   modifies r.Runtextpos
+//@   ensures[empty] len(prefix) == 0 ==> b && r.Runtextpos == old(r.Runtextpos)
+//@   ensures[hit]   b && len(prefix) > 0 ==> old(r.Runtextpos) <= r.Runtextpos && r.Runtextpos <= Latest(r) && PrefAt(r.Runtext, r.Runtextpos, prefix, ignoreCase, AllASCII(prefix))
+//@   ensures[first] b && len(prefix) > 0 ==> forall p int {mark(p - old(r.Runtextpos))} :: old(r.Runtextpos) <= p && p < r.Runtextpos ==> !PrefAt(r.Runtext, p, prefix, ignoreCase, AllASCII(prefix))
+//@   ensures[miss]  !b ==> r.Runtextpos == r.Runtextend && forall p int {mark(p - old(r.Runtextpos))} :: old(r.Runtextpos) <= p && p <= Latest(r) ==> !PrefAt(r.Runtext, p, prefix, ignoreCase, AllASCII(prefix))
+
+//@ func findFixedDistanceCharLeftToRight(r *Runner, ch rune, distance int) (b bool)
+//@   props C03 C10
+//@   requires RunnerText(r) && 0 <= distance
+//@   modifies r.Runtextpos
+//@   ensures[hit]   b ==> old(r.Runtextpos) <= r.Runtextpos && r.Runtextpos <= Latest(r) && r.Runtextpos + distance < len(r.Runtext) && r.Runtext[r.Runtextpos + distance] == ch
+//@   ensures[first] b ==> forall p int :: old(r.Runtextpos) <= p && p < r.Runtextpos && p <= Latest(r) ==> r.Runtext[p + distance] != ch
+//@   ensures[miss]  !b ==> r.Runtextpos == r.Runtextend && forall p int :: old(r.Runtextpos) <= p && p <= Latest(r) && p + distance < len(r.Runtext) ==> r.Runtext[p + distance] != ch
+//@   loop 0:
+//@     invariant RunnerText(r) && r.Runtextpos == old(r.Runtextpos) && r.Runtextpos + distance <= searchStart
+//@     invariant forall p int :: old(r.Runtextpos) <= p && p + distance < searchStart && p <= Latest(r) && p + distance < len(r.Runtext) ==> r.Runtext[p + distance] != ch
+//@     decreases len(r.Runtext) - searchStart
+
+//@ func findFixedDistanceStringLeftToRight(r *Runner, literal []rune, distance int) (b bool)
+//@   props C03 C10
+//@   requires RunnerText(r) && 0 <= distance
+//@   modifies r.Runtextpos
+//@   ensures[empty] len(literal) == 0 ==> b && r.Runtextpos == old(r.Runtextpos)
+//@   ensures[hit]   b && len(literal) > 0 ==> old(r.Runtextpos) <= r.Runtextpos && r.Runtextpos <= Latest(r) && helpers.OccursAt(r.Runtext, r.Runtextpos + distance, literal)
+//@   ensures[first] b && len(literal) > 0 ==> forall p int {mark(p + distance)} :: old(r.Runtextpos) <= p && p < r.Runtextpos && p <= Latest(r) ==> !helpers.OccursAt(r.Runtext, p + distance, literal)
+//@   ensures[miss]  !b ==> r.Runtextpos == r.Runtextend && forall p int {mark(p + distance)} :: old(r.Runtextpos) <= p && p <= Latest(r) ==> !helpers.OccursAt(r.Runtext, p + distance, literal)
+//@   loop 0:
+//@     invariant RunnerText(r) && r.Runtextpos == old(r.Runtextpos) && r.Runtextpos + distance <= searchStart && len(literal) > 0
+//@     invariant forall p int {mark(p + distance)} :: old(r.Runtextpos) <= p && p + distance < searchStart && p <= Latest(r) ==> !helpers.OccursAt(r.Runtext, p + distance, literal)
+//@     decreases len(r.Runtext) - searchStart + 1
